@@ -134,6 +134,8 @@ def translate(repo: Path) -> dict:
     pops = len(_calls(fc, "self._pending_ofs.pop")) == 1 and len(_calls(fc, "self._pending_ref.pop")) == 1
     if not pops:
         raise T.TranslateError("_follow_chain: pending entries are no longer popped when unblocked")
+    fc_src = ast.unparse(fc)
+    chain_check = "on_chain" in fc_src and _if_raises(fc, lambda t_: "sha in on_chain" in ast.unparse(t_)) == "ApplyDeltaError"
     wr = T.find_def(ptree, "DeltaChainIterator._walk_ref_chains")
     if len(_calls(wr, "self._pending_ref.pop")) != 1 or len(_calls(wr, "sorted")) != 1:
         raise T.TranslateError("_walk_ref_chains: shape changed (sorted snapshot + pop expected)")
@@ -225,6 +227,9 @@ def translate(repo: Path) -> dict:
     # objects added one at a time while the iterator is being drained = no all-or-nothing
     mem_incremental = any(isinstance(n, ast.For) and "PackInflater.for_pack_data" in ast.unparse(n.iter)
                           and "self.add_object(obj)" in ast.unparse(n) for n in ast.walk(mcommit))
+    # -- the stores ask their indexers / inflaters to refuse deltas onto their own chain
+    stores_reject = chain_check and all("reject_delta_cycles=True" in ast.unparse(n) for n in (thin, addp, cp, mcommit)) and \
+        "base_sha=base_sha" in ast.unparse(wr)
     # -- index trailer check (SHA1Reader.check_sha)
     cs = T.find_def(ptree, "SHA1Reader.check_sha")
     cs_src = ast.unparse(cs)
@@ -299,6 +304,9 @@ def thinFailureRemovesTmp : Bool := {_lean_bool(thin_cleans)}
 /-- `MemoryObjectStore.add_pack.commit`: `p.check()` precedes the inflater; objects are added while the inflater is drained -/
 def memChecksTrailer : Bool := {_lean_bool(mem_checks)}
 def memAddsIncrementally : Bool := {_lean_bool(mem_incremental)}
+/-- `_follow_chain` raises ApplyDeltaError for `sha in on_chain` and add_thin_pack, add_pack, _complete_pack and
+MemoryObjectStore all pass `reject_delta_cycles=True` -/
+def storesRejectDeltaCycles : Bool := {_lean_bool(stores_reject)}
 /-- `SHA1Reader.check_sha(allow_empty=True)` as coded accepts a trailer shorter than 20 bytes unverified -/
 def indexShortTrailerAccepted : Bool := {_lean_bool(index_short_trailer_ok)}
 end Dulwich.Gen.Ingest
@@ -1466,6 +1474,17 @@ def attacks(rng):
         add("ref:self-via-external-base-then-child", build_pack("a", [("raw", raw_entry(7, ident_x, base=obj_name(3, extb)), 3, extb),
                                                                        ("ofs", 0, extb + b"child\n")]), pre=[(3, extb)], mode=mode)
         add("ref:thin-base-present", build_pack("a", [("full", 3, blob), ("ref", ("ext", 0), extb + b"x")], ext=[(3, extb)]), pre=[(3, extb)], mode=mode)
+        # longer circle through the external base: X -> Y and Y -> X
+        ybig = extb + b"more\n"
+        add("ref:circle-via-external-base", build_pack("a", [("raw", raw_entry(7, make_delta(extb, ybig), base=obj_name(3, extb)), 3, ybig),
+                                                              ("raw", raw_entry(7, make_delta(ybig, extb), base=obj_name(3, ybig)), 3, extb)]),
+            pre=[(3, extb)], mode=mode)
+    # the same circle of names inside one self-contained pack (every name has a full entry AND a delta entry)
+    ybig = extb + b"more\n"
+    add("ref:circle-of-names-in-pack", build_pack("a", [("full", 3, extb), ("full", 3, ybig),
+                                                        ("raw", raw_entry(7, make_delta(ybig, extb), base=obj_name(3, ybig)), 3, extb),
+                                                        ("raw", raw_entry(7, make_delta(extb, ybig), base=obj_name(3, extb)), 3, ybig)]))
+    add("ofs:identity-delta", build_pack("a", [("full", 3, blob), ("ofs", 0, blob)]))
     add("ref:thin-then-missing", build_pack("a", [("ref", ("ext", 0), extb + b"x"), ("raw", raw_entry(7, d12, base=b"\x11" * 20), None, None)],
                                             ext=[(3, extb)]), pre=[(3, extb)])
     # zlib: trailing garbage, over-long output, size header disagreeing with payload
